@@ -1,6 +1,7 @@
 package props
 
 import (
+	"fmt"
 	"go/token"
 	"go/types"
 	"strings"
@@ -30,6 +31,7 @@ func c02(r *core.Run) {
 	r.Trusted = append(r.Trusted,
 		"semantics of net/http (headers frozen at WriteHeader/Write), context, sync.Mutex, channel close/receive ordering, grpc interceptor chaining in list order",
 		"numeric values of grpc codes (Canceled=1, DeadlineExceeded=4, Internal=13) and of the HTTP statuses 200/413/499/500/503")
+	c02IndexClosures(r.P, c02Hdl, c02RpcSI, "api", "rpc", "rpc/internal", "api/internal/response")
 	c02RestTimeout(r)
 	c02RestGuards(r)
 	c02Rpc(r)
@@ -41,22 +43,27 @@ func c02RestTimeout(r *core.Run) {
 	p := r.P
 	isHTTPHandlerCall := core.CallTo("(net/http.Handler).ServeHTTP")
 
-	// role: the runner is the function of api/handler that allocates a timeoutWriter
+	// role: the runner is the function of api/handler that starts a goroutine and waits for it in a select
 	var serve *ssa.Function
-	var twLit *ssa.Alloc
 	nServe := 0
 	for _, f := range p.PkgFuncs(c02Hdl) {
-		for _, in := range core.Instrs(f, func(in ssa.Instruction) bool {
-			a, ok := in.(*ssa.Alloc)
+		hasGo := len(core.Instrs(f, func(in ssa.Instruction) bool { _, ok := in.(*ssa.Go); return ok })) > 0
+		hasSel := len(core.Instrs(f, func(in ssa.Instruction) bool { s, ok := in.(*ssa.Select); return ok && s.Blocking })) > 0
+		if hasGo && hasSel {
+			serve = f
+			nServe++
+		}
+	}
+	isTwType := func(t types.Type, depth int) bool {
+		for i := 0; i < depth; i++ {
+			pt, ok := t.(*types.Pointer)
 			if !ok {
 				return false
 			}
-			n, ok := a.Type().(*types.Pointer).Elem().(*types.Named)
-			return ok && n.Obj().Name() == "timeoutWriter"
-		}) {
-			serve, twLit = f, in.(*ssa.Alloc)
-			nServe++
+			t = pt.Elem()
 		}
+		n, ok := t.(*types.Named)
+		return ok && n.Obj().Name() == "timeoutWriter" && n.Obj().Pkg() != nil && strings.HasSuffix(n.Obj().Pkg().Path(), c02Hdl)
 	}
 	var run *c02Runner
 	var wpar *ssa.Parameter
@@ -64,7 +71,7 @@ func c02RestTimeout(r *core.Run) {
 	problem := ""
 	switch {
 	case nServe != 1:
-		problem = "expected exactly one function of api/handler constructing a timeoutWriter"
+		problem = "expected exactly one function of api/handler that starts a goroutine and selects on it"
 	default:
 		run = c02NewRunner(serve, isHTTPHandlerCall)
 		problem = run.problem
@@ -73,18 +80,28 @@ func c02RestTimeout(r *core.Run) {
 				wpar = pa
 			}
 		}
-		for _, ref := range *twLit.Referrers() {
-			if st, ok := ref.(*ssa.Store); ok && st.Val == ssa.Value(twLit) {
-				if al, ok := st.Addr.(*ssa.Alloc); ok {
-					twVar = al
-				}
+		// the variable holding the buffering writer: a local of type *timeoutWriter, else the literal itself
+		var vars, lits []*ssa.Alloc
+		for _, in := range core.Instrs(serve, func(in ssa.Instruction) bool { _, ok := in.(*ssa.Alloc); return ok }) {
+			al := in.(*ssa.Alloc)
+			switch {
+			case isTwType(al.Type(), 2):
+				vars = append(vars, al)
+			case isTwType(al.Type(), 1):
+				lits = append(lits, al)
 			}
+		}
+		switch {
+		case len(vars) == 1:
+			twVar = vars[0]
+		case len(vars) == 0 && len(lits) == 1:
+			twVar = lits[0]
 		}
 		if problem == "" && wpar == nil {
 			problem = "runner has no http.ResponseWriter parameter"
 		}
-		if twVar == nil {
-			twVar = twLit
+		if problem == "" && twVar == nil {
+			problem = "runner does not hold exactly one timeoutWriter"
 		}
 		if problem == "" && (run.ctxArm == nil || run.doneArm == nil) {
 			problem = "the select has no completion arm or no ctx.Done() arm"
@@ -363,8 +380,120 @@ func c02RestTimeout(r *core.Run) {
 		}
 	})
 
-	// uses of the real writer inside the runner
-	collectUses := func() []ssa.Instruction {
+	// ---- arm helpers: non-handler-facing in-package functions called only from the flushing arms of the runner
+	callSites := func(f *ssa.Function) []ssa.Instruction {
+		var out []ssa.Instruction
+		for _, g := range p.PkgFuncs(c02Hdl) {
+			for _, in := range core.Instrs(g, func(in ssa.Instruction) bool { return core.AsCall(in) != nil }) {
+				if core.AsCall(in).Common().StaticCallee() == f {
+					out = append(out, in)
+				}
+			}
+		}
+		return out
+	}
+	// inArms: instruction of the runner reachable after `go` only through one of the given select arms
+	inArms := func(in ssa.Instruction, arms ...*selArm) bool {
+		if in.Parent() != serve {
+			return false
+		}
+		var es []core.Edge
+		for _, a := range arms {
+			es = append(es, a.Edge)
+		}
+		g := run.gos[0]
+		if _, ok := core.Reach(core.Q{From: []core.At{core.After(g)}, Target: core.Is(in)}); !ok {
+			return false
+		}
+		_, out := core.Reach(core.Q{From: []core.At{core.After(g)}, Target: core.Is(in), Cut: core.CutSet(es)})
+		return !out
+	}
+	facingSet := func() map[*ssa.Function]bool {
+		m := map[*ssa.Function]bool{}
+		for _, f := range handlerFacing() {
+			m[f] = true
+		}
+		return m
+	}
+	// armHelper: f (or the function it is a closure of) is an in-package function, not reachable by the
+	// handler through the writer's method set, every static use of which is a plain call inside the given arms
+	outermost := func(f *ssa.Function) *ssa.Function {
+		for i := 0; i < 8; i++ {
+			if m := c02MakerOf(f); m != nil && f.Parent() != nil {
+				if m.Parent() != nil && m.Parent() != f {
+					f = m.Parent()
+					continue
+				}
+			}
+			break
+		}
+		return f
+	}
+	armHelper := func(f *ssa.Function, arms ...*selArm) bool {
+		f = outermost(f)
+		if f == serve {
+			return false
+		}
+		if f.Parent() != nil || f.Blocks == nil || f.Pkg != serve.Pkg || facingSet()[f] || (f.Object() != nil && f.Object().Exported()) {
+			return false
+		}
+		cs := callSites(f)
+		if len(cs) == 0 {
+			return false
+		}
+		for _, c := range cs {
+			if _, plain := c.(*ssa.Call); !plain || !inArms(c, arms...) {
+				return false
+			}
+		}
+		return true
+	}
+	bothArms := func() []*selArm { return []*selArm{run.doneArm, run.ctxArm} }
+	// isRealW: v denotes the request's real ResponseWriter: the runner's parameter, the timeoutWriter.w
+	// field (checked below to be initialised from that parameter only), or a writer parameter of an arm helper
+	var isRealW func(v ssa.Value) bool
+	isRealW = func(v ssa.Value) bool {
+		if core.IsFieldLoad(v, "timeoutWriter.w") {
+			return true
+		}
+		cv := c02Var(v)
+		if cv == ssa.Value(wpar) {
+			return true
+		}
+		if pa, ok := cv.(*ssa.Parameter); ok && isRWType(pa.Type()) && pa.Parent() != serve && armHelper(pa.Parent(), bothArms()...) {
+			idx := -1
+			for i, q := range pa.Parent().Params {
+				if q == pa {
+					idx = i
+				}
+			}
+			for _, c := range callSites(pa.Parent()) {
+				as := core.AsCall(c).Common().Args
+				if idx < 0 || idx >= len(as) {
+					return false
+				}
+				if core.IsFieldLoad(as[idx], "timeoutWriter.w") || c02Var(as[idx]) == ssa.Value(wpar) {
+					continue
+				}
+				return false
+			}
+			return true
+		}
+		return false
+	}
+	isInvokeOnW := func(name string) func(ssa.Instruction) bool {
+		return func(in ssa.Instruction) bool {
+			c := core.AsCall(in)
+			if c == nil || !c.Common().IsInvoke() || c.Common().Method.Name() != name {
+				return false
+			}
+			return isRealW(c.Common().Value)
+		}
+	}
+
+	// uses of the real writer inside function f: instructions consuming the runner's writer parameter
+	// (f == runner) or a value loaded from timeoutWriter.w
+	usesIn := func(f *ssa.Function) []ssa.Instruction {
 		var out []ssa.Instruction
 		seen := map[ssa.Value]bool{}
 		var walk func(v ssa.Value)
@@ -404,6 +533,9 @@ func c02RestTimeout(r *core.Run) {
 				case *ssa.Phi:
 					walk(x)
 				case *ssa.TypeAssert:
+					if x.AssertedType.String() == "net/http.Pusher" {
+						continue // probing for server push does not write the response
+					}
 					walk(x)
 				case *ssa.Extract:
 					walk(x)
@@ -412,10 +544,51 @@ func c02RestTimeout(r *core.Run) {
 				}
 			}
 		}
-		walk(wpar)
+		if f == serve {
+			walk(wpar)
+		}
+		for _, in := range core.Instrs(f, func(in ssa.Instruction) bool {
+			u, ok := in.(*ssa.UnOp)
+			return ok && u.Op == token.MUL && isTwField(u.X, "w")
+		}) {
+			walk(in.(*ssa.UnOp))
+		}
 		return out
 	}
-	r.Check("D3/K5/real-writer-only-in-flush-arms", "once the handler goroutine is started, the real ResponseWriter is used only inside the completion arm and the ctx.Done() arm of the select; timeoutWriter.w is never written through elsewhere", func(o *core.O) {
+	collectUses := func() []ssa.Instruction { return usesIn(serve) }
+	// respondsOnW: an instruction of the runner that (certainly) uses the real writer: a direct use, or a
+	// call of an arm helper every path of which uses it
+	respondsOnW := func() func(ssa.Instruction) bool {
+		direct := core.Is(collectUses()...)
+		return func(in ssa.Instruction) bool {
+			if direct(in) {
+				return true
+			}
+			c, ok := in.(*ssa.Call)
+			if !ok || in.Parent() != serve {
+				return false
+			}
+			cal := c.Call.StaticCallee()
+			if cal == nil || !armHelper(cal, bothArms()...) {
+				return false
+			}
+			us := usesIn(cal)
+			for _, pa := range cal.Params {
+				if isRWType(pa.Type()) && isRealW(pa) && pa.Referrers() != nil {
+					for _, ref := range *pa.Referrers() {
+						if _, dbg := ref.(*ssa.DebugRef); !dbg {
+							us = append(us, ref)
+						}
+					}
+				}
+			}
+			if len(us) == 0 {
+				return false
+			}
+			return core.MustPass(core.Entry(cal), core.Is(us...), core.IsExit) == nil
+		}
+	}
+	r.Check("D3/K5/real-writer-only-in-flush-arms", "once the handler goroutine is started, the real ResponseWriter (the runner's parameter, or timeoutWriter.w which is only ever initialised from it) is used only inside the completion arm and the ctx.Done() arm of the select, directly or in helpers called only there; the handler-facing methods of timeoutWriter never write through timeoutWriter.w", func(o *core.O) {
 		if !need(o) {
 			return
 		}
@@ -426,6 +599,12 @@ func c02RestTimeout(r *core.Run) {
 		for _, in := range uses {
 			if mc, ok := in.(*ssa.MakeClosure); ok && g.Call.Value == ssa.Value(mc) {
 				continue // the goroutine capturing the writer is reported by goroutine-gets-buffer-only
+			}
+			// handing the writer to the constructor of the buffering writer is not a use
+			if c, ok := in.(*ssa.Call); ok {
+				if cal := c.Call.StaticCallee(); cal != nil && cal.Pkg == serve.Pkg && cal.Blocks != nil && cal.Signature.Results().Len() == 1 && isTwType(cal.Signature.Results().At(0).Type(), 1) {
+					continue // checked below: the constructor only stores it into timeoutWriter.w
+				}
 			}
 			_, a := core.Reach(core.Q{From: []core.At{core.After(g)}, Target: core.Is(in)})
 			_, b := core.Reach(core.Q{From: []core.At{core.After(in)}, Target: core.Is(g)})
@@ -440,23 +619,64 @@ func c02RestTimeout(r *core.Run) {
 				o.Fail(p.InstrPos(in), "the real ResponseWriter is used in %s outside the completion and deadline arms while the handler goroutine may be running", core.FuncName(serve))
 			}
 		}
-		// loads of timeoutWriter.w anywhere in the package may only be probed for http.Pusher
+		facing := facingSet()
 		for _, f := range p.PkgFuncs(c02Hdl) {
-			for _, in := range core.Instrs(f, func(in ssa.Instruction) bool {
-				u, ok := in.(*ssa.UnOp)
-				return ok && u.Op == token.MUL && isTwField(u.X, "w")
-			}) {
+			if f == serve {
+				continue
+			}
+			// timeoutWriter.w is initialised only from the runner's writer
+			for _, st := range core.StoresToField(f, "timeoutWriter.w") {
 				o.Site(1, core.FuncName(f))
-				for _, ref := range *in.(*ssa.UnOp).Referrers() {
-					if _, ok := ref.(*ssa.DebugRef); ok {
-						continue
+				pa, ok := c02Var(st.Val).(*ssa.Parameter)
+				okInit := false
+				if ok && pa.Parent() == f && f.Parent() == nil && !facing[f] {
+					idx := -1
+					for i, q := range f.Params {
+						if q == pa {
+							idx = i
+						}
 					}
-					ta, ok := ref.(*ssa.TypeAssert)
-					if ok && ta.AssertedType.String() == "net/http.Pusher" {
-						continue
+					cs := callSites(f)
+					okInit = len(cs) > 0
+					for _, c := range cs {
+						as := core.AsCall(c).Common().Args
+						if c.Parent() != serve || idx >= len(as) || c02Var(as[idx]) != ssa.Value(wpar) {
+							okInit = false
+						}
 					}
-					o.Fail(p.InstrPos(ref), "%s reaches through timeoutWriter.w to the real ResponseWriter (output would bypass the buffer)", core.FuncName(f))
+					// the constructor uses the writer for nothing else
+					for _, ref := range *pa.Referrers() {
+						switch x := ref.(type) {
+						case *ssa.DebugRef:
+						case *ssa.Store:
+							if x != st && !isTwField(x.Addr, "w") {
+								okInit = false
+							}
+						default:
+							okInit = false
+						}
+					}
 				}
+				if !okInit {
+					o.Fail(p.InstrPos(st), "timeoutWriter.w is set to %s in %s: not (only) the runner's own ResponseWriter", core.Describe(st.Val), core.FuncName(f))
+				}
+			}
+			us := usesIn(f)
+			if len(us) == 0 {
+				continue
+			}
+			o.Site(len(us), core.FuncName(f))
+			if armHelper(f, bothArms()...) {
+				r.Fn(core.FuncName(f))
+				continue // runs only inside the flushing arms
+			}
+			for _, u := range us {
+				o.Fail(p.InstrPos(u), "%s reaches through timeoutWriter.w to the real ResponseWriter outside the flushing arms (output would bypass the buffer)", core.FuncName(f))
+			}
+		}
+		for _, st := range core.StoresToField(serve, "timeoutWriter.w") {
+			if c02Var(st.Val) != ssa.Value(wpar) {
+				o.Fail(p.InstrPos(st), "timeoutWriter.w is set to %s, not the runner's own ResponseWriter", core.Describe(st.Val))
 			}
 		}
 	})
@@ -471,12 +691,25 @@ func c02RestTimeout(r *core.Run) {
 			st, ok := in.(*ssa.Store)
 			return ok && isStoreTimedOut(in) && core.Describe(st.Val) == "const:true"
 		}
-		if w, ok := core.Reach(core.Q{From: from, Target: core.IsExit, Blocked: isTrue}); ok {
+		// marks: stores timedOut=true, directly or by calling a deadline-arm helper that does so on every path
+		marks := func(in ssa.Instruction) bool {
+			if isTrue(in) {
+				return true
+			}
+			c, ok := in.(*ssa.Call)
+			if !ok {
+				return false
+			}
+			cal := c.Call.StaticCallee()
+			if cal == nil || !armHelper(cal, run.ctxArm) || len(core.Instrs(cal, isTrue)) == 0 {
+				return false
+			}
+			return core.MustPass(core.Entry(cal), isTrue, core.IsExit) == nil
+		}
+		if w, ok := core.Reach(core.Q{From: from, Target: core.IsExit, Blocked: marks}); ok {
 			o.Fail(p.InstrPos(w), "the deadline arm can end without setting timedOut: later handler writes are still buffered and Write reports success")
 		}
-		uses := collectUses()
-		isUse := core.Is(uses...)
-		if w, ok := core.Reach(core.Q{From: from, Target: core.IsExit, Blocked: isUse}); ok {
+		if w, ok := core.Reach(core.Q{From: from, Target: core.IsExit, Blocked: respondsOnW()}); ok {
 			o.Fail(p.InstrPos(w), "the deadline arm can end without writing the timeout response to the client")
 		}
 		n := 0
@@ -487,6 +720,10 @@ func c02RestTimeout(r *core.Run) {
 					o.Fail(p.InstrPos(in), "timedOut is assigned %s", core.Describe(in.(*ssa.Store).Val))
 				}
 				if f != serve {
+					if armHelper(f, run.ctxArm) {
+						r.Fn(core.FuncName(f))
+						continue // a helper called only inside the ctx.Done() arm
+					}
 					o.Fail(p.InstrPos(in), "timedOut is stored in %s, outside the deadline arm", core.FuncName(f))
 					continue
 				}
@@ -549,8 +786,8 @@ func c02RestTimeout(r *core.Run) {
 		if !need(o) {
 			return
 		}
-		// flush context: the runner's completion arm, or the one in-package helper it hands the writer to
-		fn, from, wv := serve, []core.At{armHead(run.doneArm)}, ssa.Value(wpar)
+		// flush context: the runner's completion arm, or the one helper of that arm that writes the status
+		fn, from := serve, []core.At{armHead(run.doneArm)}
 		inRegion := func(pred func(ssa.Instruction) bool) []ssa.Instruction {
 			var out []ssa.Instruction
 			for _, in := range core.Instrs(fn, pred) {
@@ -560,32 +797,25 @@ func c02RestTimeout(r *core.Run) {
 			}
 			return out
 		}
-		if len(inRegion(isInvokeOn(wv, "WriteHeader"))) == 0 {
-			var cands []*ssa.Call
-			var idxs []int
+		if len(inRegion(isInvokeOnW("WriteHeader"))) == 0 {
+			var cands []*ssa.Function
 			for _, in := range inRegion(func(in ssa.Instruction) bool { _, ok := in.(*ssa.Call); return ok }) {
-				c := in.(*ssa.Call)
-				cal := c.Call.StaticCallee()
-				if cal == nil || cal.Blocks == nil || cal.Pkg != serve.Pkg {
-					continue
-				}
-				for i, a := range c.Call.Args {
-					if c02Var(a) == wv {
-						cands, idxs = append(cands, c), append(idxs, i)
-					}
+				cal := in.(*ssa.Call).Call.StaticCallee()
+				if cal != nil && armHelper(cal, run.doneArm) && len(core.Instrs(cal, isInvokeOnW("WriteHeader"))) > 0 {
+					cands = append(cands, cal)
 				}
 			}
 			if len(cands) == 1 {
-				fn = cands[0].Call.StaticCallee()
-				from, wv = []core.At{core.Entry(fn)}, fn.Params[idxs[0]]
+				fn = cands[0]
+				from = []core.At{core.Entry(fn)}
 				r.Fn(core.FuncName(fn))
 			}
 		}
-		isWH := isInvokeOn(wv, "WriteHeader")
-		isWr := isInvokeOn(wv, "Write")
+		isWH := isInvokeOnW("WriteHeader")
+		isWr := isInvokeOnW("Write")
 		isHdrMap := func(v ssa.Value) bool {
 			c, _ := core.ResultOf(core.Forward(v))
-			return c != nil && isInvokeOn(wv, "Header")(c)
+			return c != nil && isInvokeOnW("Header")(c)
 		}
 		fromTwH := func(v ssa.Value) bool {
 			return core.DependsOn(v, func(x ssa.Value) bool { return core.FieldAddrNameOfLoad(x) == "timeoutWriter.h" })
@@ -715,7 +945,14 @@ func c02RestTimeout(r *core.Run) {
 			core.Cmp(token.EQL, func(v ssa.Value) bool { return v.Type().String() == "error" && !isCanceledGlobal(v) }, isCanceledGlobal),
 		)
 		found := 0
-		for _, f := range core.WithAnon(serve) {
+		// the runner, the closures it creates, and the helpers of the ctx.Done() arm with their closures
+		cands := c02WithClosures(serve)
+		for _, in := range core.Instrs(serve, func(in ssa.Instruction) bool { _, ok := in.(*ssa.Call); return ok }) {
+			if cal := in.(*ssa.Call).Call.StaticCallee(); cal != nil && armHelper(cal, run.ctxArm) {
+				cands = append(cands, c02WithClosures(cal)...)
+			}
+		}
+		for _, f := range cands {
 			if run.inBody(f) || core.EdgeCount(f, canceled) == 0 {
 				continue
 			}
@@ -879,15 +1116,66 @@ func c02RestGuards(r *core.Run) {
 			return ok && c == code
 		}
 	}
-	// perRequest finds, below an exported middleware constructor, the functions that invoke next.ServeHTTP
+	// answers: WriteHeader(code) on w, directly or through an in-package helper that is handed w and
+	// calls WriteHeader(code) on it on every path
+	answers := func(w ssa.Value, code int64) func(ssa.Instruction) bool {
+		direct := isWHCode(w, code)
+		return func(in ssa.Instruction) bool {
+			if direct(in) {
+				return true
+			}
+			c, ok := in.(*ssa.Call)
+			if !ok {
+				return false
+			}
+			cal := c.Call.StaticCallee()
+			if cal == nil || cal.Blocks == nil || cal.Pkg != in.Parent().Pkg {
+				return false
+			}
+			for i, a := range c.Call.Args {
+				if c02Var(a) == w && i < len(cal.Params) {
+					h := isWHCode(cal.Params[i], code)
+					if len(core.Instrs(cal, h)) > 0 && core.MustPass(core.Entry(cal), h, core.IsExit) == nil {
+						return true
+					}
+				}
+			}
+			return false
+		}
+	}
+	// perRequest finds the functions serving a request for an exported middleware constructor: the
+	// closures below it that invoke next.ServeHTTP, and the ServeHTTP methods of handler types it instantiates
 	perRequest := func(ctor *ssa.Function) []*ssa.Function {
 		var out []*ssa.Function
-		for _, f := range core.WithAnon(ctor) {
-			if len(core.Instrs(f, isNext)) > 0 {
+		seen := map[*ssa.Function]bool{}
+		for _, f := range c02WithClosures(ctor) {
+			if len(core.Instrs(f, isNext)) > 0 && !seen[f] {
+				seen[f] = true
 				out = append(out, f)
+			}
+			for _, in := range core.Instrs(f, func(in ssa.Instruction) bool { _, ok := in.(*ssa.Alloc); return ok }) {
+				nt, ok := in.(*ssa.Alloc).Type().(*types.Pointer).Elem().(*types.Named)
+				if !ok || nt.Obj().Pkg() == nil || nt.Obj().Pkg() != ctor.Pkg.Pkg {
+					continue
+				}
+				if m := p.Func(c02Hdl, nt.Obj().Name(), "ServeHTTP"); m != nil && m.Blocks != nil && !seen[m] && len(core.Instrs(m, isNext)) > 0 {
+					seen[m] = true
+					out = append(out, m)
+				}
 			}
 		}
 		return out
+	}
+	// latchKey identifies the latch a Limit method is called on: the variable, or the struct field it is kept in
+	latchKey := func(v ssa.Value) string {
+		if n := core.FieldAddrNameOfLoad(core.Strip(v)); n != "" {
+			return "field:" + n
+		}
+		cv := c02Var(v)
+		if n := core.FieldAddrNameOfLoad(core.Strip(cv)); n != "" {
+			return "field:" + n
+		}
+		return fmt.Sprintf("var:%p", cv)
 	}
 	rwParam := func(f *ssa.Function) *ssa.Parameter {
 		for _, pa := range f.Params {
@@ -960,7 +1248,7 @@ func c02RestGuards(r *core.Run) {
 						continue
 					}
 				}
-				if x, ok := core.Reach(core.Q{From: c02Heads(arm), Target: core.IsExit, Blocked: isWHCode(w, 500)}); ok {
+				if x, ok := core.Reach(core.Q{From: c02Heads(arm), Target: core.IsExit, Blocked: answers(w, 500)}); ok {
 					o.Fail(p.InstrPos(x), "a recovered panic can leave %s without WriteHeader(500) on the request's writer", core.FuncName(df))
 				}
 				if x := core.Requires(df, isInvokeOn(w, "WriteHeader"), core.Not(recoveredNil)); x != nil {
@@ -1087,7 +1375,8 @@ func c02RestGuards(r *core.Run) {
 	isRet := core.CallTo("(lib/syncx.Limit).Return")
 	var mcReq []*ssa.Function
 	if mcCtor != nil {
-		for _, f := range core.WithAnon(mcCtor) {
+		// role: the functions of the package that borrow from a syncx.Limit (closure of MaxConns or a handler type's method)
+		for _, f := range p.PkgFuncs(c02Hdl) {
 			if len(core.Instrs(f, isTry)) > 0 {
 				mcReq = append(mcReq, f)
 			}
@@ -1124,7 +1413,7 @@ func c02RestGuards(r *core.Run) {
 				o.Fail(p.Pos(f.Pos()), "TryBorrow's result is never tested")
 				continue
 			}
-			if x, ok := core.Reach(core.Q{From: c02Heads(refused), Target: core.IsExit, Blocked: isWHCode(w, 503)}); ok {
+			if x, ok := core.Reach(core.Q{From: c02Heads(refused), Target: core.IsExit, Blocked: answers(w, 503)}); ok {
 				o.Fail(p.InstrPos(x), "a refused request can end without status 503")
 			}
 		}
@@ -1158,9 +1447,9 @@ func c02RestGuards(r *core.Run) {
 				o.Fail(p.InstrPos(x), "a borrowed slot can be returned twice")
 			}
 			// same latch
-			var tryRecv ssa.Value
+			tryRecv := ""
 			for _, t := range core.Instrs(f, isTry) {
-				tryRecv = c02Var(core.Args(core.AsCall(t))[0])
+				tryRecv = latchKey(core.Args(core.AsCall(t))[0])
 			}
 			for _, d := range defs {
 				fs := []*ssa.Function{f}
@@ -1169,7 +1458,7 @@ func c02RestGuards(r *core.Run) {
 				}
 				for _, g := range fs {
 					for _, rc := range core.Instrs(g, isRet) {
-						if c02Var(core.Args(core.AsCall(rc))[0]) != tryRecv {
+						if latchKey(core.Args(core.AsCall(rc))[0]) != tryRecv {
 							o.Fail(p.InstrPos(rc), "Return is called on a different latch than TryBorrow")
 						}
 					}
@@ -1183,15 +1472,20 @@ func c02RestGuards(r *core.Run) {
 		}
 		isNew := core.CallTo("lib/syncx.NewLimit")
 		n := 0
-		for _, f := range core.WithAnon(mcCtor) {
+		for _, f := range p.PkgFuncs(c02Hdl) {
 			for _, in := range core.Instrs(f, isNew) {
 				n++
 				r.Fn(core.FuncName(f))
 				for _, q := range mcReq {
-					for g := f; g != nil; g = g.Parent() {
+					for g, i := f, 0; g != nil && i < 8; i++ {
+						up := g.Parent()
+						if m := c02MakerOf(g); m != nil && up != nil {
+							up = m.Parent()
+						}
 						if g == q {
 							o.Fail(p.InstrPos(in), "the latch is created per request: every request gets a fresh limit and the bound is never reached")
 						}
+						g = up
 					}
 				}
 				if c02Var(core.AsCall(in).Common().Args[0]) != ssa.Value(mcCtor.Params[0]) {
@@ -1200,11 +1494,20 @@ func c02RestGuards(r *core.Run) {
 				// the latch borrowed from is this one
 				for _, q := range mcReq {
 					for _, t := range core.Instrs(q, isTry) {
-						home, ok := c02Var(core.Args(core.AsCall(t))[0]).(*ssa.Alloc)
+						recv := core.Args(core.AsCall(t))[0]
+						home, ok := c02Var(recv).(*ssa.Alloc)
 						okStore := false
 						if ok {
 							for _, ref := range *home.Referrers() {
 								if st, isSt := ref.(*ssa.Store); isSt && st.Addr == ssa.Value(home) && st.Val == in.(ssa.Value) {
+									okStore = true
+								}
+							}
+						}
+						// or: kept in the struct field the per-request method borrows from
+						if key := latchKey(recv); strings.HasPrefix(key, "field:") {
+							for _, ref := range *in.(ssa.Value).Referrers() {
+								if st, isSt := ref.(*ssa.Store); isSt && st.Val == in.(ssa.Value) && "field:"+core.FieldAddrName(st.Addr) == key {
 									okStore = true
 								}
 							}
@@ -1248,10 +1551,10 @@ func c02RestGuards(r *core.Run) {
 			if x := core.Requires(f, isNext, core.Not(tooBig)); x != nil {
 				o.Fail(p.InstrPos(x), "next.ServeHTTP is reachable although the declared Content-Length exceeds the limit")
 			}
-			if x, ok := core.Reach(core.Q{From: c02Heads(holds), Target: core.IsExit, Blocked: isWHCode(w, 413)}); ok {
+			if x, ok := core.Reach(core.Q{From: c02Heads(holds), Target: core.IsExit, Blocked: answers(w, 413)}); ok {
 				o.Fail(p.InstrPos(x), "an oversized request can end without status 413")
 			}
-			if x := core.Requires(f, isWHCode(w, 413), tooBig); x != nil {
+			if x := core.Requires(f, answers(w, 413), tooBig); x != nil {
 				o.Fail(p.InstrPos(x), "413 is sent to a request within the limit")
 			}
 		}
